@@ -19,7 +19,7 @@ func init() {
 		ID:    "C05",
 		Level: "exploration",
 		Rule: "edit histories (AddVertex, RemoveVertex, AddEdge, RemoveEdge, Copy, InducedSubgraph) applied in lock-step to a DenseGraph, a SparseGraph and an adjacency-matrix model; after EVERY operation all observers (N, M, IsEdge on all ordered pairs incl. the diagonal, Neighbours, Degrees) of ALL live graphs (sources and their copies / induced subgraphs) are compared with their models. " +
-			"ALL histories up to a length bound from small start graphs (exhaustive), plus seeded long histories with up to 4 live graphs mutated alternately. " +
+			"ALL histories up to a length bound from small start graphs (exhaustive), plus seeded long histories with up to 4 live graphs mutated alternately and shorter histories on graphs whose order crosses 64 and 128 vertices. " +
 			"non-trivial = history with a RemoveVertex of a non-last vertex, or a Copy/InducedSubgraph followed by a mutation of source or result; distinct = hash of (start graph, operation sequence)",
 		Assumptions: []string{
 			"oracle: rg.G bit matrix with Induced/RemoveVertex/AddVertex written from the interface documentation",
@@ -29,7 +29,7 @@ func init() {
 		Run:            run,
 		MinEvaluations: map[string]int{"quick": 200000, "thorough": 2000000},
 		MinNontrivial:  map[string]int{"quick": 2000, "thorough": 20000},
-		RequiredObs:    []string{"op:AddVertex", "op:RemoveVertex", "op:RemoveVertex(non-last)", "op:AddEdge", "op:RemoveEdge", "op:Copy", "op:InducedSubgraph", "mutation_after_copy_or_induced", "addvertex_reusing_backing_array"},
+		RequiredObs:    []string{"op:AddVertex", "op:RemoveVertex", "op:RemoveVertex(non-last)", "op:AddEdge", "op:RemoveEdge", "op:Copy", "op:InducedSubgraph", "mutation_after_copy_or_induced", "addvertex_reusing_backing_array", "large_histories(n crossing 64/128)"},
 	})
 }
 
@@ -423,6 +423,9 @@ func run(c *engine.Ctx) {
 		c.Obs(fmt.Sprintf("exhaustive:all histories of length<=%d from start graph %s (<=3 vertices, <=2 live graphs)", maxL, st.name), 1)
 	}
 
+	// 1b. histories on graphs whose order crosses 64 / 128
+	largeHistories(c)
+
 	// 2. seeded long histories.
 	nh := c.Pick(12000, 40000)
 	L := c.Pick(80, 300)
@@ -521,6 +524,102 @@ func run(c *engine.Ctx) {
 				r.runHistory(fmt.Sprintf("seeded#%d", i), start, i%5 == 0, ops, fmt.Sprintf("seeded#%d", i))
 				if i < 2 {
 					c.Sample("seeded", map[string]interface{}{"start": start.String(), "len": len(ops), "first_ops": histString("", ops[:8])})
+				}
+			}
+		})
+	}
+}
+
+// largeHistories drives graphs whose order crosses 64 and 128 vertices (word-size / growth thresholds).
+func largeHistories(c *engine.Ctx) {
+	nh := c.Pick(48, 240)
+	per := 4
+	for u := 0; u*per < nh; u++ {
+		u := u
+		c.Unit(fmt.Sprintf("large/%d", u), func() {
+			r := &runner{c: c, label: "large"}
+			for i := u * per; i < (u+1)*per && i < nh && !c.Stopped(); i++ {
+				rg0 := c.Rand("c05-large", i)
+				base := []int{62, 63, 64, 65, 126, 127, 128, 129}[i%8]
+				start := rg.New(base)
+				p := []float64{0.03, 0.5, 0.9, 0.1}[(i/8)%4]
+				for a := 0; a < base; a++ {
+					for b := 0; b < a; b++ {
+						if rg0.Bool(p) {
+							start.Add(a, b)
+						}
+					}
+				}
+				sim := []*rg.G{start.Copy()}
+				var ops []op
+				L := 28
+				for len(ops) < L {
+					ti := rg0.Intn(len(sim))
+					m := sim[ti]
+					n := m.N
+					x := rg0.Float()
+					var o op
+					switch {
+					case x < 0.30: // grow across the boundary
+						if n >= base+4 {
+							continue
+						}
+						k := rg0.Intn(n + 1)
+						if rg0.Bool(0.3) {
+							k = n // adjacent to everything, incl. the vertices with index >= 64
+						}
+						l := append([]int{}, rg0.Perm(n)[:k]...)
+						o = op{kind: "av", t: ti, list: l}
+						sim[ti] = m.AddVertex(l)
+					case x < 0.55:
+						if n <= base-3 {
+							continue
+						}
+						v := rg0.Intn(n)
+						if rg0.Bool(0.3) {
+							v = []int{0, 63, 64, n - 1}[rg0.Intn(4)]
+							if v >= n {
+								v = n - 1
+							}
+						}
+						o = op{kind: "rv", t: ti, a: v}
+						sim[ti] = m.RemoveVertex(v)
+					case x < 0.72:
+						a, b := rg0.Intn(n), rg0.Intn(n)
+						if n > 61 && rg0.Bool(0.5) {
+							a = 60 + rg0.Intn(n-60)
+						}
+						o = op{kind: "ae", t: ti, a: a, b: b}
+						m.Add(a, b)
+					case x < 0.88:
+						a, b := rg0.Intn(n), rg0.Intn(n)
+						if m.M() > 0 && rg0.Bool(0.7) {
+							es := m.Edges()
+							e := es[rg0.Intn(len(es))]
+							a, b = e[1], e[0]
+						}
+						o = op{kind: "re", t: ti, a: a, b: b}
+						m.Del(a, b)
+					default:
+						if len(sim) >= 3 {
+							continue
+						}
+						if rg0.Bool(0.5) {
+							o = op{kind: "cp", t: ti}
+							sim = append(sim, m.Copy())
+						} else {
+							k := n - rg0.Intn(4)
+							l := append([]int{}, rg0.Perm(n)[:k]...)
+							o = op{kind: "is", t: ti, list: l}
+							sim = append(sim, m.Induced(l))
+						}
+					}
+					ops = append(ops, o)
+				}
+				c.Obs("large_histories(n crossing 64/128)", 1)
+				r.runHistory(fmt.Sprintf("large#%d", i), start, i%3 == 0, ops, fmt.Sprintf("large#%d", i))
+				if i < 1 {
+					c.Sample("large", map[string]interface{}{"start_n": base, "start_m": start.M(), "len": len(ops), "first_ops": histString("", ops[:4])})
 				}
 			}
 		})
